@@ -121,6 +121,29 @@ fn plan() -> Plan {
                 h.extend(tail(&mut acts, &mut idx));
                 hists.push((format!("(deadline)|{}|{}", sname, tname), h));
             }
+            // ... and then a write by the other connection finds the remains of the key (its deadline passed, nobody has
+            // looked at it, no sweeper pass): whatever the write does with them, the watched key has changed
+            // (a seeded FLUSHDB skipped expired entries when it marked what it removed: the remains vanished unnoticed)
+            if sname == "string" || sname == "list" {
+                for w in writes() {
+                    if w[0] == "BLPOP" {
+                        continue;
+                    }
+                    let mut h: Vec<usize> = Vec::new();
+                    for sc in seed.iter() {
+                        h.push(idx(cmd(1, sc), &mut acts));
+                    }
+                    if w[0].starts_with("RENAME") && w[1] != "k" {
+                        h.push(idx(cmd(1, &["SET", w[1], "jv"]), &mut acts));
+                    }
+                    h.push(idx(cmd(1, &["PEXPIRE", "k", "100"]), &mut acts));
+                    h.push(idx(cmd(0, &["WATCH", "k"]), &mut acts));
+                    h.push(idx(MAct::Tick(150_000_000), &mut acts));
+                    h.push(idx(cmd(1, &w), &mut acts));
+                    h.extend(tail(&mut acts, &mut idx));
+                    hists.push((format!("(deadline-then-write)|{}|{}", sname, w.join(" ")), h));
+                }
+            }
             // a TTL that does not run out must not abort
             let mut h: Vec<usize> = Vec::new();
             for sc in seed.iter() {
